@@ -49,6 +49,13 @@ CHECKS = {
             'ref': 'DESIGN.md 2/C20', 'note': NOTE + ' The schedule variables are finite selectors: for them the solver contributes '
                     'exhaustive coverage of the bounded schedule space rather than arithmetic.',
             'technique': SYM + ' with a symbolic arrival schedule'},
+    'C06': {'text': 'One real handleAuthMessage call from an ARBITRARY authenticator state (state x reject counter x mechanism, '
+                    'constrained only by a representation invariant) for 26 line shapes and a symbolic mechanism outcome is '
+                    'compared with a reference model of the DBus server state machine - an inductive step covering line sequences '
+                    'of any length; plus bounded runs from the real initial state through the real dataReceived, the three real '
+                    'mechanisms (cookie hash uninterpreted) and real-client-vs-real-bus handshakes.',
+            'ref': 'DESIGN.md 2/C06', 'note': NOTE + ' Mechanism I/O (pwd, keyring files, urandom, SHA-1) is stubbed as listed in the evidence.',
+            'technique': SYM + '; inductive one-step check from an arbitrary state against a reference state machine'},
 }
 _TODO = 'check not built yet in this revision (planned, see DESIGN.md section 2)'
 NOT_APPLICABLE = {('C%02d' % i): _TODO for i in range(1, 21)}
